@@ -705,6 +705,20 @@ impl Model {
     }
 
     fn exec_inner(&mut self, t: Tx, s: &Stmt) -> Result<Exp, ErrClass> {
+        // a table this transaction still sees although its DROP is in flight or committed after the snapshot:
+        // the tree is already freed (listed finding)
+        let named: Option<&str> = match s {
+            Stmt::CreateTable(d) => Some(&d.name),
+            Stmt::DropTable(n) => Some(n),
+            Stmt::Insert { table, .. } | Stmt::Update { table, .. } | Stmt::Delete { table, .. } | Stmt::Select { table, .. } => Some(table),
+            Stmt::CreateUniqueIndex { table, .. } | Stmt::AddColumn { table, .. } | Stmt::DropColumn { table, .. } | Stmt::SetNotNull { table, .. } | Stmt::DropNotNull { table, .. } | Stmt::AddUnique { table, .. } => Some(table),
+            Stmt::Failing { .. } => None,
+        };
+        if let Some(ti) = named.and_then(|n| self.find_table(t, n)) {
+            if self.tables[ti].dropped_by.is_some() {
+                self.hazard(KF_DROP_IN_TXN);
+            }
+        }
         match s {
             Stmt::Failing { class, .. } => Err(*class),
             Stmt::CreateTable(d) => {
@@ -723,7 +737,15 @@ impl Model {
             }
             Stmt::DropTable(name) => {
                 let ti = self.find_table(t, name).ok_or(ErrClass::Bind)?;
-                if self.txs[t as usize].explicit || self.active_txs().len() > 1 {
+                // The tree is freed at once. That is outside the listed finding only for an auto-commit DROP
+                // whose table no open transaction has written; an open transaction that later still NAMES
+                // the table (its snapshot predates the drop) raises the hazard then (see `exec_inner` head).
+                let others: Vec<Tx> = self.active_txs().into_iter().filter(|x| *x != t).collect();
+                let tb = &self.tables[ti];
+                let touched = others.iter().any(|o| {
+                    tb.created_by == *o || tb.defs.iter().any(|(x, _)| x == o) || tb.rows.iter().any(|r| r.xmax == Some(*o) || r.versions.iter().any(|(x, _)| x == o))
+                });
+                if self.txs[t as usize].explicit || touched {
                     self.hazard(KF_DROP_IN_TXN);
                 }
                 self.tables[ti].dropped_by = Some(t);
